@@ -7,7 +7,13 @@ Import ListNotations.
 Open Scope N_scope.
 
 Inductive carrier := Grpc | Gin | Dubbo.
-Definition headers := list (bytes * bytes).
+(* the value stored under a key: a string; a list of strings (gRPC metadata and HTTP headers are
+   multi-valued; the triple protocol hands dubbo attachments over wrapped in []string); or
+   something that is neither (dubbo attachments are interface{} values) *)
+Inductive aval := AStr (s : bytes) | AList (l : list bytes) | AOther.
+Definition headers := list (bytes * aval).
+Definition vals (v : aval) : list bytes :=
+  match v with AStr s => [s] | AList l => l | AOther => [] end.
 
 Definition lower_b (c : byte) : byte :=
   let n := b2n c in if (65 <=? n) && (n <=? 90) then n2b (n + 32) else c.
@@ -28,11 +34,6 @@ Fixpoint canon_from (up : bool) (s : bytes) : bytes :=
   end.
 Definition canon (s : bytes) : bytes := if forallb token_b s then canon_from true s else s.
 
-Fixpoint lookup (k : bytes) (h : headers) : bytes :=            (* "" when absent *)
-  match h with
-  | [] => []
-  | (k', v) :: h' => if bytes_eqb k k' then v else lookup k h'
-  end.
 Fixpoint first_nonempty (l : list bytes) : bytes :=
   match l with
   | [] => []
@@ -44,32 +45,42 @@ Definition k_TX_XID : bytes := bytes_of_string "TX_XID".
 Definition k_tx_xid : bytes := bytes_of_string "tx_xid".
 Definition k_SEATA_XID : bytes := bytes_of_string "SEATA_XID".
 
-(* what the transport does to the keys the sender set *)
-Definition normalise (c : carrier) (h : headers) : headers :=
-  match c with
-  | Grpc => map (fun kv => (lower (fst kv), snd kv)) h           (* metadata.New / Pairs / the wire *)
-  | Gin => map (fun kv => (canon (fst kv), snd kv)) h            (* http.Header.Set / the server's reader *)
-  | Dubbo => h                                                   (* attachments: a plain map *)
-  end.
+(* what the transport does to a key the sender set: metadata.New / Pairs / Append and the
+   wire lower-case; http.Header.Set / Add and the server's reader canonicalise; dubbo
+   attachments are a plain map *)
+Definition norm (c : carrier) (k : bytes) : bytes :=
+  match c with Grpc => lower k | Gin => canon k | Dubbo => k end.
 
-(* the receiver: ServerTransactionInterceptor / TransactionMiddleware / dubboTransactionFilter.getRpcXid *)
+(* md.Get(K)[0] / Header.Get(K) / GetAttachment(K): the first of all values that ended up under
+   the normalised key K ("" when there is none); a dubbo []string attachment yields its first
+   element, a value of another type nothing *)
+Definition get (c : carrier) (K : bytes) (h : headers) : bytes :=
+  hd [] (flat_map (fun kv => if bytes_eqb (norm c (fst kv)) K then vals (snd kv) else []) h).
+
+(* keys the receiver asks for, in its order: ServerTransactionInterceptor /
+   TransactionMiddleware / dubboTransactionFilter.getRpcXid *)
+Definition wanted (c : carrier) : list bytes :=
+  match c with
+  | Grpc => [norm Grpc k_TX_XID; norm Grpc k_tx_xid]
+  | Gin => [norm Gin k_TX_XID; norm Gin k_tx_xid]
+  | Dubbo => [k_SEATA_XID; lower k_SEATA_XID; k_TX_XID; lower k_TX_XID]
+  end.
 Definition extract (c : carrier) (h : headers) : bytes :=
-  match c with
-  | Grpc => first_nonempty [lookup (lower k_TX_XID) h; lookup (lower k_tx_xid) h]      (* md.Get lowercases *)
-  | Gin => first_nonempty [lookup (canon k_TX_XID) h; lookup (canon k_tx_xid) h]       (* Header.Get canonicalises *)
-  | Dubbo => first_nonempty [lookup k_SEATA_XID h; lookup (lower k_SEATA_XID) h;
-                             lookup k_TX_XID h; lookup (lower k_TX_XID) h]
-  end.
+  first_nonempty (map (fun K => get c K h) (wanted c)).
+Definition carried := extract.
 
-(* the sender: ClientTransactionInterceptor / (caller sets the header) / dubboTransactionFilter.Invoke *)
-Definition inject (c : carrier) (xid : bytes) : headers :=
+(* the sender, on headers `pre` the outgoing context / request / invocation already holds:
+   ClientTransactionInterceptor REPLACES the outgoing metadata by {TX_XID: xid};
+   an HTTP caller SETS the header (all values under the canonical key go);
+   dubboTransactionFilter.Invoke SETS the attachments SEATA_XID and TX_XID *)
+Definition inject (c : carrier) (xid : bytes) (pre : headers) : headers :=
   match c with
-  | Grpc => [(k_TX_XID, xid)]
-  | Gin => [(k_TX_XID, xid)]
-  | Dubbo => [(k_SEATA_XID, xid); (k_TX_XID, xid)]
+  | Grpc => [(k_TX_XID, AStr xid)]
+  | Gin => (k_TX_XID, AStr xid) ::
+           filter (fun kv => negb (bytes_eqb (canon (fst kv)) (canon k_TX_XID))) pre
+  | Dubbo => (k_SEATA_XID, AStr xid) :: (k_TX_XID, AStr xid) ::
+             filter (fun kv => negb (bytes_eqb (fst kv) k_SEATA_XID || bytes_eqb (fst kv) k_TX_XID)) pre
   end.
-
-Definition carried (c : carrier) (h : headers) : bytes := extract c (normalise c h).
 
 (* key spellings under which a receiver finds the xid *)
 Definition accepted (c : carrier) (k : bytes) : bool :=
@@ -80,16 +91,16 @@ Definition accepted (c : carrier) (k : bytes) : bool :=
              bytes_eqb k k_TX_XID || bytes_eqb k k_tx_xid
   end.
 
-(* ---- comparison with what the real integrations did (harness tmrun carrier) *)
+(* ---- comparison with what the real integrations did (harness tmcarrier) *)
 Record ccase := {
   cc_kind : carrier;
-  cc_roundtrip : bool;          (* true: the sender half produced the headers from cc_xid *)
-  cc_key : bytes;               (* otherwise: the single key the headers were built with *)
+  cc_roundtrip : bool;          (* true: the sender half ran with cc_xid on top of cc_hdrs *)
+  cc_hdrs : headers;            (* otherwise: exactly what the receiver is handed *)
   cc_xid : bytes;
   cc_got : bytes;               (* xid the callee found in its context *)
 }.
 Definition check_ccase (c : ccase) : list N :=
-  let h := if cc_roundtrip c then inject (cc_kind c) (cc_xid c) else [(cc_key c, cc_xid c)] in
+  let h := if cc_roundtrip c then inject (cc_kind c) (cc_xid c) (cc_hdrs c) else cc_hdrs c in
   if bytes_eqb (carried (cc_kind c) h) (cc_got c) then [] else [4].
 Fixpoint cmismatches_from (i : nat) (cs : list ccase) : list (nat * N) :=
   match cs with
